@@ -306,3 +306,13 @@ package pegnet
 //@   loop 1 invariant @versions envHealthy ==> forall x int :: LsyncPresent[x] ==> (old(LsyncPresent)[x] ==> LsyncVer[x] == old(LsyncVer)[x]) && (!old(LsyncPresent)[x] ==> LsyncVer[x] == 0 - 1)
 //@   loop 2 invariant @range 0 <= iter && iter <= len(Hardforks) && isMaxH(LsyncPresent, top)
 //@   loop 2 invariant @none_too_old forall k int :: 0 <= k && k < iter ==> !(Hardforks[k].ActivationHeight <= top && tooOld(LsyncPresent, LsyncVer, Hardforks[k].ActivationHeight, Hardforks[k].MinimumVersion))
+//@
+//@ // reads the committed view (p.DB); any storage error is answered with "false" (finding F14)
+//@ func (*Pegnet).IsIncludedTopPEGAddress
+//@   trusted
+//@   pure
+//@
+//@ func (*Pegnet).SelectPreviousWinners
+//@   trusted
+//@   pure
+//@   ensures envHealthy ==> result1 == nil || result1 == sql.ErrNoRows
